@@ -77,6 +77,13 @@ def gen_constraints(rng, col):
                     v = int(base * rng.choice([0.5, 1.5, 2]))
                 if rng.random() < 0.1:
                     v = rng.choice([0, 0.0, 1, -1.5])
+                distinct = sorted(set(nn))
+                if len(distinct) >= 2 and rng.random() < 0.25:
+                    # the bound sits exactly on a record while another record violates it (what open / closed / fuzzy
+                    # mean for the record on the bound)
+                    v = distinct[1] if kind == 'min' else distinct[-2]
+                    if ftype == 'date' and not isinstance(v, dt.datetime):
+                        v = dt.datetime(v.year, v.month, v.day)
             else:
                 v = rng.choice([0, 1, -1, 2.5, 'abc', dt.datetime(2020, 1, 1)])
             k = {'kind': kind, 'value': v}
@@ -318,9 +325,12 @@ class C02(core.Prop):
         cons = {}
         for c in fr['cols']:
             cons[c['name']] = gen_constraints(rng, c)
-        if rng.random() < 0.1:
-            cons['missing_field'] = [rng.choice([{'kind': 'type', 'value': 'int'}, {'kind': 'min', 'value': 1},
-                                                 {'kind': 'max_nulls', 'value': 1}, {'kind': 'max_nulls', 'value': None}])]
+        if rng.random() < 0.12:
+            # constraints on a field the frame lacks: every kind, with and without a value
+            typical = {'type': 'int', 'min': 1, 'max': 5, 'min_length': 1, 'max_length': 3, 'sign': 'positive', 'max_nulls': 1,
+                       'no_duplicates': True, 'allowed_values': ['a', 'b'], 'rex': ['^a$']}
+            cons['missing_field'] = [{'kind': k, 'value': None if rng.random() < 0.5 else typical[k]}
+                                     for k in rng.sample(list(typical), rng.randint(1, 4))]
         e = rng.choice(EPS)
         return {'frame': fr, 'constraints': cons, 'eps': [e.numerator, e.denominator], 'strict': rng.random() < 0.3}
 
